@@ -335,7 +335,8 @@ def powellReplace (ibig n : Nat) : List (List α) → List α → List (List α)
     ((row.set ibig last).set (n - 1) x) :: powellReplace ibig n rows xs
   | rows, _ => rows
 
-/-- `PowellMultiDimensions::doStep` (PowellMultiDimensions.cpp:66-134) -/
+/-- `PowellMultiDimensions::doStep` (PowellMultiDimensions.cpp:66-140), repaired: every branch leaves the
+function at the optimiser's parameters -/
 def powellDoStep (I : FunI F α) (fuel : Nat) (s : St F (Powell α) α) : Except (Exc × F) (St F (Powell α) α × α) :=
   let n := s.core.params.length
   let s := { s with ext := { s.ext with fp := s.ext.fret } }
@@ -367,7 +368,11 @@ def powellDoStep (I : FunI F α) (fuel : Nat) (s : St F (Powell α) α) : Except
                 let s := { s with fn := fn, core := { s.core with nbEval := s.core.nbEval + 1 }, ext := { s.ext with fret := fret } }
                 if gtb fret s.ext.fp then .error (.bpp, s.fn)
                 else .ok ({ s with ext := { s.ext with xi := powellReplace ibig n s.ext.xi xit' } }, fret)
-          else .ok (s, fret)
+          else
+            -- (repaired) the direction set is kept: the function, at the extrapolated point, is put back
+            match I.setParameters s.fn s.core.params with
+            | .error e => .error e
+            | .ok fn => .ok ({ s with fn := fn, core := { s.core with nbEval := s.core.nbEval + 1 } }, fret)
         else
           match I.setParameters s.fn s.core.params with
           | .error e => .error e
